@@ -103,6 +103,30 @@ theorem node_only_appends (fuel : Nat) (c : Ctx) (n : Node) (buf b : Buf)
 theorem siblings_only_append (fuel : Nat) (c : Ctx) (ks : List Node) (buf b : Buf)
     (h : execKids fuel c ks buf = .ok b) : buf <:+ b := (GL.Grows.grows fuel).2 c ks buf b h
 
+/-- **In bytes: the document rendered so far is a prefix of the document rendered in the end** (before the
+eraser runs) — no node, however deeply nested, rewrites or reorders what precedes it. -/
+theorem rendered_prefix_is_kept (fuel : Nat) (c : Ctx) (ks : List Node) (buf b : Buf)
+    (h : execKids fuel c ks buf = .ok b) : flattenBuf buf <+: flattenBuf b := by
+  obtain ⟨new, hn⟩ := siblings_only_append fuel c ks buf b h
+  subst hn
+  exact ⟨new.reverse.flatten, by simp [flattenBuf]⟩
+
+/-- … and a sibling list is rendered left to right: the first node's output directly follows what was there,
+the rest follows the first node's output. -/
+theorem first_sibling_then_rest (fuel : Nat) (c : Ctx) (k : Node) (rest : List Node) (buf b : Buf)
+    (hk : ∀ o i bd, k ≠ .silent o i bd)
+    (h : execKids (fuel+1) c (k :: rest) buf = .ok b) :
+    ∃ b1, execNode fuel c k buf = .ok b1 ∧ flattenBuf buf <+: flattenBuf b1 ∧ flattenBuf b1 <+: flattenBuf b := by
+  have hb : ∃ b1, execNode fuel c k buf = .ok b1 ∧ execKids fuel c rest b1 = .ok b := by
+    cases k <;> first
+      | (exfalso; exact hk _ _ _ rfl)
+      | (simp only [execKids] at h; exact GL.Grows.bind_ok h)
+  obtain ⟨b1, h1, h2⟩ := hb
+  refine ⟨b1, h1, ?_, rendered_prefix_is_kept fuel c rest b1 b h2⟩
+  obtain ⟨new, hn⟩ := node_only_appends fuel c k buf b1 h1
+  subst hn
+  exact ⟨new.reverse.flatten, by simp [flattenBuf]⟩
+
 -- PLANNED T1: nesting follows tab depth — Parser.parse (lineTokens lines) = offsideTree lines for every validIndents line list
 -- PLANNED T2: emitText t = printIR (emitIR t); block structure of silent-script chains in the generated Go
 -- PLANNED T3: htmlTok (erase out) = docTokens (denote t env) under WF t, SentinelFree t env
